@@ -34,7 +34,12 @@ def lex_part(run, tier):
             run.error('LEXZ3 translator disagrees with re for %s: %s' % (d, bad[:3]))
             continue
         w = z3.String('w')
-        bare, _, _ = translate(no_wrap_identifier_regex.pattern, False)
+        # the printer's "no back-quotes needed" pattern; anchors around it mean the same under fullmatch (what the printer really does with it
+        # is the CrossHair lemma ident_atom's subject: a part printed bare must be one ID lexeme)
+        bare_pat = no_wrap_identifier_regex.pattern
+        bare_pat = bare_pat[1:] if bare_pat.startswith('^') else bare_pat
+        bare_pat = bare_pat[:-1] if bare_pat.endswith('$') and not bare_pat.endswith('\\$') else bare_pat
+        bare, _, _ = translate(bare_pat, False)
         idx = M.index_of('ID')
         id_re = M.rules[idx][2]
         # A1: printed-bare words of which an earlier rule captures a PREFIX (first-match tokenisation: the rule needs to match
@@ -163,6 +168,52 @@ def r_var(args):
         'Variable(%r) prints %s which parses back as %r' % (v, text, got)
 
 
+_VALUE_LEXEMES = {
+    'QUOTE_STRING': ["'01 day'", "'1 day'", "'007'", "''", "' x '", "'it''s'", "'%'", "'NULL'", "'1e5'", "'-1'", "'x.y'", "'a\"b'", "'2 hours'", "'00'", "'1.50'", "'A'"],
+    'DQUOTE_STRING': ['"01 day"', '"a b"', '"x.y"', '"it\'s"', '"007"', '"A"', '"select"', '"1"'],
+    'INTEGER': ['0', '007', '10', '99999999999999999999', '1', '00'],
+    'FLOAT': ['0.0', '1.5', '.5', '1.', '0.00005', '00.10', '123456789.125', '1.0'],
+    'ID': ['a1', '`a b`', '`select`', 'x$y', '$a', '_', 'A1', '`1x`', '`a.b`', 'Id', '`ID`', 'a_b'],
+    'VARIABLE': ['@v', '@V1', '@`a b`', "@'x'", '@a.b', '@_'],
+    'SYSTEM_VARIABLE': ['@@v', '@@V1', '@@a.b', '@@`a b`'],
+}
+
+
+def value_vocabulary(L):
+    """per value-carrying token kind: the candidate lexemes the live lexer reads as exactly one token of that kind"""
+    out = {}
+    for kind, cands in _VALUE_LEXEMES.items():
+        keep = []
+        for c in cands:
+            try:
+                toks = list(L().tokenize(c))
+            except Exception:  # noqa
+                continue
+            if len(toks) == 1 and toks[0].type == kind:
+                keep.append(c)
+        out[kind] = keep or None
+    return {k: v for k, v in out.items() if v}
+
+
+class LexPools:
+    """acttree.Pools look-alike that spells value tokens with vocabulary lexemes"""
+    def __init__(self, vocab, k):
+        self.vocab, self.k, self.n, self.used, self.ints = vocab, k, {}, [], []
+
+    def word(self, text):
+        return text
+
+    def lexeme(self, term):
+        tab = self.vocab.get(term)
+        if not tab:
+            raise KeyError(term)
+        j = self.n.get(term, 0)
+        self.n[term] = j + 1
+        v = tab[(self.k + j) % len(tab)]
+        self.used.append((term, v))
+        return v
+
+
 def skeleton_part(run, tier):
     from engines.sentences import shortest_sentences
     from engines.symtok import representatives
@@ -209,6 +260,31 @@ def skeleton_part(run, tier):
                 if t_:
                     sqls.append((t_, 'production %s <- ( %s )' % (str(p).split('  [')[0], str(cp).split('  [')[0])))
                     n_par += 1
+        # ... and every production with the value-carrying tokens of its shortest derivation spelled with each lexeme of a per-kind
+        # vocabulary (leading zeros, empty and blank-padded strings, doubled quotes, digit strings in quotes, quoted and $ names, ..):
+        # the k-th sentence of a production gives occurrence j of a token kind the lexeme number (k + j) of that kind
+        n_val = 0
+        vocab = value_vocabulary(L)
+        kmax = max(len(v) for v in vocab.values())
+        for i, p in enumerate(dv.prods):
+            if p.name not in dv.ctx:
+                continue
+            base = None
+            for k in range(kmax):
+                pools = LexPools(vocab, k)
+                try:
+                    body = c02u2.AT.text_of(dv.root_trees(p, [0] * len(dv.n_alternatives(p))), pools, lexemes)
+                except Exception:  # noqa
+                    break
+                if not pools.used:
+                    break           # no value token in this derivation
+                pre, suf = dv.ctx[p.name]
+                defaults = c02u2.AT.Pools()
+                pre_t = ' '.join(defaults.lexeme(t) if t in c02u2.AT.VALUE_TERMINALS else lexemes.get(t, t) for t in pre)
+                suf_t = ' '.join(defaults.lexeme(t) if t in c02u2.AT.VALUE_TERMINALS else lexemes.get(t, t) for t in suf)
+                sqls.append((' '.join(x for x in (pre_t, body, suf_t) if x), 'value vocabulary %d in %s' % (k, str(p).split('  [')[0])))
+                n_val += 1
+        run.extra['value_vocabulary_sentences_%s' % d] = n_val
         run.extra['alternative_derivation_sentences_%s' % d] = n_alt
         run.extra['production_pair_sentences_%s' % d] = n_pair
         run.extra['parenthesised_child_sentences_%s' % d] = n_par
@@ -251,6 +327,12 @@ def skeleton_part(run, tier):
                     key = 'roundtrip:printer:%s:%s:identifier-valued-option-printed-with-repr' % (d, type(a).__name__)
                 elif 'Object of type Identifier is not JSON serializable' in problem:
                     key = 'roundtrip:printer:%s:%s:identifier-valued-option-not-json-serializable' % (d, type(a).__name__)
+                elif s1 is not None and d in ('mysql', 'sqlite') and "\\'" in s1 and 'LexError' in problem:
+                    # to_string() has no dialect argument: a quote inside a string constant is written \' , which only the mindsdb lexer reads
+                    key = 'roundtrip:printer:%s:string-constant-quote-escaped-for-a-lexer-without-escapes' % d
+                elif s1 is not None and re.search(r'=\s*-?\d+(\.\d+)?e[-+]?\d+', s1) and problem.startswith('re-parse raises'):
+                    # option values (USING / SET k = v) go through json.dumps: small and large floats come out in exponent notation
+                    key = 'roundtrip:printer:%s:%s:option-float-printed-in-exponent-notation' % (d, type(a).__name__)
                 elif s1 is not None and type(a).__name__ == 'CreateAgent' and 'model=None' in s1:
                     key = 'roundtrip:printer:%s:CreateAgent:missing-model-printed-as-None' % d
                 elif s1 is not None and type(a).__name__ == 'Show' and re.fullmatch(r'SHOW ENGINE \S+ (MUTEX|STATUS)', ' '.join(sql.split())) \
